@@ -407,17 +407,25 @@ impl Check for C20Check {
         let faulty_board = if index % 2 == 1 { Some(r.usize(0, nb - 1)) } else { None };
         let mut boards = Vec::new();
         for (bi, id) in ids.iter().enumerate() {
-            let n_markers = match r.below(10) {
+            let big = index % 53 == 9 && bi == 0;
+            let n_markers = match if big { 10 } else { r.below(10) } {
+                // scale: hundreds to tens of thousands of half wraps (a long run)
+                10 => *r.pick(&[300u32, 1_000, 5_000, 70_000]),
                 0 => 1,
                 1..=4 => r.range(2, 5) as u32,
                 5..=8 => r.range(5, 12) as u32,
                 _ => r.range(12, 17) as u32,
             };
             let span = (n_markers as u64 + 1) * HALF;
-            let ne = match r.below(8) {
-                0 => 0,
-                1..=5 => r.usize(1, 20),
-                _ => r.usize(20, 60),
+            let ne = if index % 53 == 31 && bi == 0 {
+                // scale: more edges than a 16-bit count
+                *r.pick(&[3_000usize, 70_000])
+            } else {
+                match r.below(8) {
+                    0 => 0,
+                    1..=5 => r.usize(1, 20),
+                    _ => r.usize(20, 60),
+                }
             };
             let mut edges = Vec::new();
             for _ in 0..ne {
@@ -513,6 +521,12 @@ impl Check for C20Check {
                 stats.probe("edge_exactly_on_half_wrap");
             }
             stats.sim_time_s += b.n_markers as f64 * HALF as f64 / 1e7;
+            if b.n_markers >= 300 {
+                stats.probe("board_with_ge_300_markers");
+            }
+            if b.edges.len() >= 3000 {
+                stats.probe("board_with_ge_3000_edges");
+            }
             expects.push(expect_board(b, &v));
             streams.push((b.id, bytes));
         }
